@@ -13,11 +13,16 @@ ASSUMPTIONS = ['len argument equals the length of the supplied buffer (the harne
 
 def ties(ctx):
     h = ctx.harness('c06_framing', ['c06_framing.c'], variant='san')
-    out = []
-    out.append(common.run_tie('framing-enum', [h, 'enum', '0' if ctx.quick else '1']))
-    out.append(common.run_tie('framing-rand', [h, 'rand', str(ctx.seed), '60000' if ctx.quick else '1500000']))
-    out.append(common.run_tie('framing-helpers', [h, 'helpers']))
-    return out
+    if ctx.quick:
+        return [common.run_tie('framing-enum', [h, 'enum', '0']),
+                common.run_tie('framing-rand', [h, 'rand', str(ctx.seed), '60000']),
+                common.run_tie('framing-helpers', [h, 'helpers'])]
+    # thorough: the model side (one driver process per tie) is the bottleneck, so the enumeration is dealt
+    # to 10 shards and the random stream to 6 sub-streams, run 8 at a time
+    specs = [('framing-enum-%d/10' % k, [h, 'enum', '1', str(k), '10']) for k in range(10)]
+    specs += [('framing-rand-%d' % k, [h, 'rand', str(ctx.seed * 1000 + k), '250000']) for k in range(6)]
+    specs.append(('framing-helpers', [h, 'helpers']))
+    return common.run_ties_parallel(specs, workers=8)
 
 
 def classify(ctx, tie, mm):
